@@ -27,7 +27,7 @@ def evalProbe (l : Level) (a : Action) (stable : Bool) (ro : Option (Level × Bo
       ⟨match ro with
         | none => []
         | some (m, f) => [⟨fun _ _ => if f then .yes else .no, m⟩], 5⟩
-      ⟨l, a, .nonSelf, .absent, [], false⟩ ⟨if stable then 5 else 0, 0⟩ with
+      ⟨l, a, .nonSelf, .absent, [], false⟩ ⟨if stable then 5 else 0, 0, false⟩ with
   | .ok s _ m => some (s, m)
   | .raise => none
 
@@ -174,7 +174,8 @@ theorem afterTCell_spec (s : Sys) (a : Nat) (ag : Agent) (p : Peptide) (mem : Me
     ((s.afterTCell a ag p mem t' r).2 = .raiseCond ∧ (s.afterTCell a ag p mem t' r).1.mem = mem) ∨
     (∃ r', (s.afterTCell a ag p mem t' r).2 = .resp r' ∧ Softened r r' ∧
       ((¬ Threat r.level ∧ (s.afterTCell a ag p mem t' r).1.mem = mem) ∨
-       (Threat r.level ∧ ∃ k, (s.afterTCell a ag p mem t' r).1.mem = mem.store ⟨a, p.vocab, p.struct, r.level, r'.action, k⟩))) := by
+       (Threat r.level ∧ ∃ k : Nat, (s.afterTCell a ag p mem t' r).1.mem =
+          mem.store ⟨a, p.vocab, p.struct, r.level, r'.action, k, (k : Int)⟩))) := by
   unfold Sys.afterTCell
   cases hrec : ag.record with
   | none =>
@@ -616,7 +617,7 @@ theorem inspect_mem (s : Sys) (a : Nat) :
       (∃ y ∈ s.mem.sigs, y.core = x.core) ∨
       (∃ p r k, (s.agents a).display = some p ∧ (s.inspect a).2 = .resp r ∧ Threat r.level ∧ r.s2 ≠ .cross ∧
         (r.level = .critical → r.action = .shutdown) ∧ AtMostOneStepLower (actionFor r.level) r.action ∧
-        x = ⟨a, p.vocab, p.struct, r.level, r.action, k⟩) := by
+        x = ⟨a, p.vocab, p.struct, r.level, r.action, k, (k : Int)⟩) := by
   intro x hx
   rcases sys_inspect_cases s a with ⟨-, he⟩ | ⟨t, -, -, he⟩ | ⟨t, p, sig, -, -, -, -, -, -, hm, -⟩ | ⟨t, p, -, h2, he⟩
   · rw [he] at hx; exact Or.inl ⟨x, hx, rfl⟩
@@ -646,9 +647,14 @@ theorem train_mem (s : Sys) (a : Nat) : (s.train a).1.mem = s.mem := by
     · split <;> rfl
   · rfl
 
-theorem step_mem (s : Sys) (op : Op) (h : ∀ a, op ≠ .inspect a) : (s.step op).1.mem = s.mem := by
+theorem step_mem (s : Sys) (op : Op) (h : ∀ a, op ≠ .inspect a) (h2 : ∀ k, op ≠ .pruneOld k)
+    (h3 : ∀ d, op ≠ .importSigs d) : (s.step op).1.mem = s.mem := by
   cases op with
   | inspect a => exact absurd rfl (h a)
+  | pruneOld k => exact absurd rfl (h2 k)
+  | importSigs d => exact absurd rfl (h3 d)
+  | markUpdated a => simp only [Sys.step, Sys.markUpdated]; split <;> rfl
+  | expire => rfl
   | train a => exact train_mem s a
   | register a => rfl
   | showP a p => simp only [Sys.step, Sys.showPeptide]; split <;> rfl
@@ -657,14 +663,42 @@ theorem step_mem (s : Sys) (op : Op) (h : ∀ a, op ≠ .inspect a) : (s.step op
   | resetFA a => simp only [Sys.step, Sys.resetT]; split <;> rfl
   | dropRecord a => rfl
 
+/-- level, action and second signal of a response, if the inspection produced one -/
+def InspectOut.summary : InspectOut → Option (Level × Action × Signal2)
+  | .resp r => some (r.level, r.action, r.s2)
+  | _ => none
+
+def Obs.summary : Obs → Option (Level × Action × Signal2)
+  | .inspected _ _ o => o.summary
+  | _ => none
+
 /-- an earlier inspection in the trace reported exactly this signature's threat, through the T cell -/
 def Reported (tr : List Obs) (x : Sig) : Prop :=
   ∃ p r, Obs.inspected x.agent (some p) (.resp r) ∈ tr ∧ p.vocab = x.vocab ∧ p.struct = x.struct ∧
     r.level = x.level ∧ r.action = x.action ∧ r.s2 ≠ .cross
 
+/-- the signature (agent, hashes, level, action) was part of an earlier `import_signatures` in the trace -/
+def ImportedIn (tr : List Obs) (x : Sig) : Prop :=
+  ∃ data, Obs.imported data ∈ tr ∧ ∃ y ∈ data, y.core = x.core
+
+/-- what an exported signature must look like to be importable: a CONFIRMED / CRITICAL threat, CRITICAL paired with
+    SHUTDOWN, the action at most one rung below the one the level calls for -/
+def WellFormedSig (x : Sig) : Prop :=
+  Threat x.level ∧ (x.level = .critical → x.action = .shutdown) ∧ AtMostOneStepLower (actionFor x.level) x.action
+
+/-- an operation is well formed if the data it imports is -/
+def Op.WF : Op → Prop
+  | .importSigs data => ∀ x ∈ data, WellFormedSig x
+  | _ => True
+
 def MemGenuine (m : Memory) (tr : List Obs) : Prop :=
-  ∀ x ∈ m.sigs, Threat x.level ∧ (x.level = .critical → x.action = .shutdown) ∧
-    AtMostOneStepLower (actionFor x.level) x.action ∧ Reported tr x
+  ∀ x ∈ m.sigs, WellFormedSig x ∧ (Reported tr x ∨ ImportedIn tr x)
+
+theorem wellFormed_of_core (x y : Sig) (h : y.core = x.core) (hy : WellFormedSig y) : WellFormedSig x := by
+  simp only [Sig.core, Prod.mk.injEq] at h
+  obtain ⟨-, -, -, h4, h5⟩ := h
+  unfold WellFormedSig at *
+  rw [← h4, ← h5]; exact hy
 
 theorem reported_of_core (tr : List Obs) (x y : Sig) (h : y.core = x.core) (hy : Reported tr y) : Reported tr x := by
   simp only [Sig.core, Prod.mk.injEq] at h
@@ -673,38 +707,68 @@ theorem reported_of_core (tr : List Obs) (x y : Sig) (h : y.core = x.core) (hy :
   exact ⟨p, r, by rw [← h1]; exact hm, by rw [← h2]; exact a, by rw [← h3]; exact b, by rw [← h4]; exact c,
     by rw [← h5]; exact d, e⟩
 
-theorem reported_mono (tr more : List Obs) (x : Sig) (h : Reported tr x) : Reported (tr ++ more) x := by
-  obtain ⟨p, r, hm, rest⟩ := h
-  exact ⟨p, r, List.mem_append_left _ hm, rest⟩
+theorem provenance_of_core (tr more : List Obs) (x y : Sig) (h : y.core = x.core)
+    (hy : Reported tr y ∨ ImportedIn tr y) : Reported (tr ++ more) x ∨ ImportedIn (tr ++ more) x := by
+  rcases hy with hy | ⟨data, hd, z, hz, hc⟩
+  · obtain ⟨p, r, hm, rest⟩ := reported_of_core tr x y h hy
+    exact Or.inl ⟨p, r, List.mem_append_left _ hm, rest⟩
+  · exact Or.inr ⟨data, List.mem_append_left _ hd, z, hz, hc.trans h⟩
 
-theorem step_genuine (s : Sys) (pre : List Obs) (op : Op) (h : MemGenuine s.mem pre) :
+theorem importGo_mem (cap : Int) (now : Nat) (data : List Sig) : ∀ (acc : List Sig),
+    ∀ x ∈ importGo cap now acc data, x ∈ acc ∨ ∃ y ∈ data, y.core = x.core := by
+  induction data with
+  | nil => intro acc x hx; exact Or.inl (by simpa [importGo] using hx)
+  | cons d rest ih =>
+    intro acc x hx
+    unfold importGo at hx
+    split at hx
+    · rcases ih _ x hx with h | ⟨y, hy, hc⟩
+      · rcases List.mem_append.mp h with h | h
+        · exact Or.inl h
+        · simp only [List.mem_singleton] at h
+          exact Or.inr ⟨d, List.mem_cons_self, by rw [h]; rfl⟩
+      · exact Or.inr ⟨y, List.mem_cons_of_mem _ hy, hc⟩
+    · rcases ih _ x hx with h | ⟨y, hy, hc⟩
+      · exact Or.inl h
+      · exact Or.inr ⟨y, List.mem_cons_of_mem _ hy, hc⟩
+
+theorem step_genuine (s : Sys) (pre : List Obs) (op : Op) (hwf : op.WF) (h : MemGenuine s.mem pre) :
     MemGenuine (s.step op).1.mem (pre ++ [(s.step op).2]) := by
-  by_cases hi : ∃ a, op = .inspect a
-  · obtain ⟨a, rfl⟩ := hi
+  cases op with
+  | inspect a =>
     intro x hx
     simp only [Sys.step] at hx ⊢
     rcases inspect_mem s a x hx with ⟨y, hy, hc⟩ | ⟨p, r, k, hd, hr, hthr, hs2, hcr, hone, rfl⟩
-    · obtain ⟨g1, g2, g4, g3⟩ := h y hy
-      have hc' := hc
-      simp only [Sig.core, Prod.mk.injEq] at hc'
-      refine ⟨by rw [← hc'.2.2.2.1]; exact g1, ?_, ?_, reported_mono _ _ _ (reported_of_core _ _ _ hc g3)⟩
-      · rw [← hc'.2.2.2.1, ← hc'.2.2.2.2]; exact g2
-      · rw [← hc'.2.2.2.1, ← hc'.2.2.2.2]; exact g4
-    · refine ⟨hthr, hcr, hone, p, r, ?_, rfl, rfl, rfl, rfl, hs2⟩
+    · obtain ⟨g1, g3⟩ := h y hy
+      exact ⟨wellFormed_of_core _ _ hc g1, provenance_of_core _ _ _ _ hc g3⟩
+    · refine ⟨⟨hthr, hcr, hone⟩, Or.inl ⟨p, r, ?_, rfl, rfl, rfl, rfl, hs2⟩⟩
       rw [hd, hr]; simp
-  · have hm := step_mem s op (fun a ha => hi ⟨a, ha⟩)
+  | pruneOld k =>
     intro x hx
-    rw [hm] at hx
-    obtain ⟨g1, g2, g4, g3⟩ := h x hx
-    exact ⟨g1, g2, g4, reported_mono _ _ _ g3⟩
+    simp only [Sys.step, Sys.pruneOld] at hx
+    obtain ⟨g1, g3⟩ := h x (List.mem_filter.mp hx).1
+    exact ⟨g1, provenance_of_core _ _ _ _ rfl g3⟩
+  | importSigs data =>
+    intro x hx
+    simp only [Sys.step, Sys.importSigs] at hx ⊢
+    rcases importGo_mem _ _ data _ x hx with hx | ⟨y, hy, hc⟩
+    · obtain ⟨g1, g3⟩ := h x hx
+      exact ⟨g1, provenance_of_core _ _ _ _ rfl g3⟩
+    · exact ⟨wellFormed_of_core _ _ hc (hwf y hy), Or.inr ⟨data, by simp, y, hy, hc⟩⟩
+  | register a | showP a p | train a | flag a b | reset a | resetFA a | dropRecord a | markUpdated a | expire =>
+    intro x hx
+    rw [step_mem s _ (by intro a h; cases h) (by intro a h; cases h) (by intro a h; cases h)] at hx
+    obtain ⟨g1, g3⟩ := h x hx
+    exact ⟨g1, provenance_of_core _ _ _ _ rfl g3⟩
 
-theorem run_genuine (ops : List Op) : ∀ (s : Sys) (pre : List Obs), MemGenuine s.mem pre →
+theorem run_genuine (ops : List Op) : ∀ (s : Sys) (pre : List Obs), (∀ op ∈ ops, op.WF) → MemGenuine s.mem pre →
     MemGenuine (s.run ops).1.mem (pre ++ (s.run ops).2) := by
   induction ops with
-  | nil => intro s pre h; simpa [Sys.run] using h
+  | nil => intro s pre _ h; simpa [Sys.run] using h
   | cons op rest ih =>
-    intro s pre h
-    have := ih (s.step op).1 (pre ++ [(s.step op).2]) (step_genuine s pre op h)
+    intro s pre hwf h
+    have := ih (s.step op).1 (pre ++ [(s.step op).2]) (fun o ho => hwf o (List.mem_cons_of_mem _ ho))
+      (step_genuine s pre op (hwf op List.mem_cons_self) h)
     simpa [Sys.run] using this
 
 /-- a response that comes out CRITICAL recommends SHUTDOWN, provided the memory only holds such pairs -/
@@ -724,12 +788,13 @@ theorem inspect_critical_shutdown (s : Sys) (a : Nat) (r : Response)
       obtain ⟨h1, -, h3⟩ := softened_one_step t p _ hsoft
       exact h3 (by rw [← h1]; exact hc)
 
-theorem run_critical_shutdown (ops : List Op) : ∀ (s : Sys) (pre : List Obs), MemGenuine s.mem pre →
+theorem run_critical_shutdown (ops : List Op) : ∀ (s : Sys) (pre : List Obs), (∀ op ∈ ops, op.WF) →
+    MemGenuine s.mem pre →
     ∀ o ∈ (s.run ops).2, ∀ a sh r, o = .inspected a sh (.resp r) → r.level = .critical → r.action = .shutdown := by
   induction ops with
-  | nil => intro s pre _ o ho; simp [Sys.run] at ho
+  | nil => intro s pre _ _ o ho; simp [Sys.run] at ho
   | cons op rest ih =>
-    intro s pre h o ho a sh r hor hc
+    intro s pre hwf h o ho a sh r hor hc
     simp only [Sys.run, List.mem_cons] at ho
     rcases ho with ho | ho
     · cases op with
@@ -737,9 +802,10 @@ theorem run_critical_shutdown (ops : List Op) : ∀ (s : Sys) (pre : List Obs), 
         simp only [Sys.step] at ho
         rw [hor] at ho
         injection ho with e1 e2 e3
-        exact inspect_critical_shutdown s b r (fun x hx => (h x hx).2.1) e3.symm hc
+        exact inspect_critical_shutdown s b r (fun x hx => (h x hx).1.2.1) e3.symm hc
       | _ => simp [Sys.step, hor] at ho
-    · exact ih (s.step op).1 (pre ++ [(s.step op).2]) (step_genuine s pre op h) o ho a sh r hor hc
+    · exact ih (s.step op).1 (pre ++ [(s.step op).2]) (fun o ho => hwf o (List.mem_cons_of_mem _ ho))
+        (step_genuine s pre op (hwf op List.mem_cons_self) h) o ho a sh r hor hc
 
 
 /-- every response's action is the one its level calls for or one rung below, provided the memory only holds
@@ -760,13 +826,14 @@ theorem inspect_within_one_step (s : Sys) (a : Nat) (r : Response)
       obtain ⟨h1, h2, -⟩ := softened_one_step t p _ hsoft
       rw [h1, ← l17_tcell_action_matches_level]; exact h2
 
-theorem run_within_one_step (ops : List Op) : ∀ (s : Sys) (pre : List Obs), MemGenuine s.mem pre →
+theorem run_within_one_step (ops : List Op) : ∀ (s : Sys) (pre : List Obs), (∀ op ∈ ops, op.WF) →
+    MemGenuine s.mem pre →
     ∀ o ∈ (s.run ops).2, ∀ a sh r, o = .inspected a sh (.resp r) →
       AtMostOneStepLower (actionFor r.level) r.action := by
   induction ops with
-  | nil => intro s pre _ o ho; simp [Sys.run] at ho
+  | nil => intro s pre _ _ o ho; simp [Sys.run] at ho
   | cons op rest ih =>
-    intro s pre h o ho a sh r hor
+    intro s pre hwf h o ho a sh r hor
     simp only [Sys.run, List.mem_cons] at ho
     rcases ho with ho | ho
     · cases op with
@@ -774,9 +841,10 @@ theorem run_within_one_step (ops : List Op) : ∀ (s : Sys) (pre : List Obs), Me
         simp only [Sys.step] at ho
         rw [hor] at ho
         injection ho with e1 e2 e3
-        exact inspect_within_one_step s b r (fun x hx => (h x hx).2.2.1) e3.symm
+        exact inspect_within_one_step s b r (fun x hx => (h x hx).1.2.2) e3.symm
       | _ => simp [Sys.step, hor] at ho
-    · exact ih (s.step op).1 (pre ++ [(s.step op).2]) (step_genuine s pre op h) o ho a sh r hor
+    · exact ih (s.step op).1 (pre ++ [(s.step op).2]) (fun o ho => hwf o (List.mem_cons_of_mem _ ho))
+        (step_genuine s pre op (hwf op List.mem_cons_self) h) o ho a sh r hor
 
 /-! ### Training and T-cell histories -/
 
